@@ -158,13 +158,22 @@ pub enum InjectKind {
 pub struct Injection {
     pub session: usize,
     pub step: usize,
-    /// which API call of that step (0 = the step's own call; compound check steps make several)
+    /// which API call of that step: 0 = the step's own call; k >= 1 = the k-th other call made during the step (checker queries, argument resolution, the calls of a compound check step), in order
     pub sub: usize,
     /// 1-based index among the read (or stat, for MtimeUnavailable) seam calls of that step
     pub nth: usize,
     pub kind: InjectKind,
     /// false: only this call; true: this and every later read of the same path until the step ends
     pub sticky: bool,
+}
+
+/// an environment event that happens immediately before the step's own call (after the checker took its
+/// "before" snapshot), so that the call itself meets the changed file
+#[derive(Serialize, Deserialize, Clone, Debug, PartialEq)]
+pub struct PreCallEnv {
+    pub session: usize,
+    pub step: usize,
+    pub event: EnvEvent,
 }
 
 #[derive(Serialize, Deserialize, Clone, Debug, PartialEq)]
@@ -205,6 +214,8 @@ pub struct Trace {
     pub world: WorldCfg,
     pub sessions: Vec<Vec<Step>>,
     pub injections: Vec<Injection>,
+    #[serde(default)]
+    pub pre_call_env: Vec<PreCallEnv>,
     pub sched: Option<Sched>,
     /// free text: how the generator made this trace (seed, template name)
     pub origin: String,
@@ -219,6 +230,7 @@ impl Trace {
             world: WorldCfg::default(),
             sessions: vec![vec![]],
             injections: vec![],
+            pre_call_env: vec![],
             sched: None,
             origin: String::new(),
         }
